@@ -678,6 +678,13 @@ func C13(c *core.Ctx) {
 				reqs = append(reqs, c13req{Kind: "jfind2", A: "w?where=" + url.QueryEscape(nm+cmp), Desc: "where with a cut or doubled operator"})
 			}
 		}
+		// path expressions with groups of different widths next to each other (fields, fc.xfields, the selector of fc.range)
+		for _, ex := range []string{"(k;bi)(c)", "(k;bi;em)(c;ll)", "(k;bi)(c;ll;ls)", "c(y;l;cc)(x;q)", "(c;k)(y)(z)", "(((k)))", "(k;(bi;(em;(an))))", "k;;bi", "(k", "k)", "()()", "(;)(;)"} {
+			for _, param := range []string{"fields", "fc.xfields"} {
+				reqs = append(reqs, c13req{Kind: "jfind2", A: "w?" + param + "=" + url.QueryEscape(ex), Desc: "path expression with groups of different widths"})
+			}
+			reqs = append(reqs, c13req{Kind: "jfind2", A: "?fc.range=" + url.QueryEscape(ex+"!1-1"), Desc: "fc.range selector with groups of different widths"})
+		}
 		// fc.range windows: signs, missing and surplus parts, on the target list, a nested list and a list that is not there
 		for _, sel := range []string{"w", "two", "c/in", "nosuch", "w/c/l", ""} {
 			for _, win := range []string{"-1-", "-1-1", "-5-", "-1", "--1", "1--1", "1-2-3", "-", "--", "1-", "0-0", "2-1", "+1-2", "1-+2", " 1-2", "1 -2", "1.5-2", "1-2.5", "a-b", "0x1-2", "99999999999999999999-1", "1-99999999999999999999", "-0-0", "١-٢"} {
